@@ -8,6 +8,7 @@ from hypothesis import strategies as st
 from vf.harness import Check
 from vf.gen import lens as GL
 from vf.gen.build import build
+from vf.gen.edit import edit_strategy, build_with_history, warm_all, ALL_KINDS
 from vf.checks.c02 import ray_bundle
 
 POL = GL.Profile(max_surfs=6, shapes=['standard', 'standard', 'even_asphere'], allow_tilt=True, keep_edges=True,
@@ -80,7 +81,8 @@ class C17(Check):
         elem = st.fixed_dictionaries(dict(kind=st.just('element'), theta=f(-math.pi, math.pi), d=f(0.0, math.pi),
                                           tmin=f(0.0, 1.0), tmax=f(0.0, 1.0)))
         trace = st.fixed_dictionaries(dict(kind=st.just('trace'), spec=GL.lens_spec(POL), rays=ray_bundle(),
-                                           state=state_strategy(), wl=st.integers(0, 3)))
+                                           state=state_strategy(), wl=st.integers(0, 3),
+                                           edit=edit_strategy(ALL_KINDS, p_none=3)))
         coated = st.fixed_dictionaries(dict(kind=st.just('coated'), spec=GL.lens_spec(POL_NOMIRROR, min_surfs=2),
                                             rays=ray_bundle(), state=state_strategy(), wl=st.integers(0, 3)))
         return st.one_of(fres, fres, elem, trace, coated)
@@ -200,7 +202,11 @@ class C17(Check):
     def check_trace(self, case, out):
         spec = case['spec']
         out.cls(*GL.spec_classes(spec))
-        o = build(spec)
+        # optionally the lens is queried and then edited (tilts and decentres through their variables included) before
+        # the polarized trace: the invariants below hold for whatever lens the Optic is now
+        o, _, edited = build_with_history(spec, case.get('edit'), warm_all)
+        if edited:
+            out.cls('traced_after_' + case['edit']['kind'] + '_edit')
         state = make_state(case['state'])
         out.cls('named_state' if 'name' in case['state'] else 'free_state')
         try:
